@@ -1,6 +1,7 @@
 #ifndef FLIB_HPP
 #define FLIB_HPP
 #include <string>
+#include <vector>
 int add(int a, int b);
 double scale(double x, int times = 1, bool neg = false);
 bool isSet(bool flag);
@@ -16,6 +17,14 @@ long widen(short s, unsigned int u, float f, long l);
 int mixed(int n, const std::string &name, double *x, bool flag);
 int overload(int a);
 int overload(double a, int b);
+int sumVec(const std::vector<int> &v);
+void scaleVec(std::vector<double> &v, double f);
+struct Pt { double x; double y; };
+double norm(const Pt &p);
+void shift(Pt *p, double dx);
+void clamp(double v, double lo, double hi);
+template<typename T> T twice(T v);
+const std::string & label(int which);
 class Counter {
 public:
     Counter();
